@@ -615,7 +615,7 @@ End Check.
 (* ------------------------------------------------------------------------------------ *)
 (* the expansion: one step, termination, fuel monotonicity *)
 
-Definition mk_pstate fr rt en : pstate := {| ps_frames := fr; ps_roots := rt; ps_enums := en |}.
+Definition mk_pstate fr rt : pstate := {| ps_frames := fr; ps_roots := rt |}.
 
 Definition paste_head (f : nat) (m : macro_table) (t : dtree) (p : pstate) : cres pstate :=
   let d := tree_dir t in
@@ -624,9 +624,7 @@ Definition paste_head (f : nat) (m : macro_table) (t : dtree) (p : pstate) : cre
            else if beq (dname t) [] then CErr (kw_err d CENameRequired)
            else match macro_lookup m (dname t) with
                 | None => CErr (kw_err d CEMacroNotFound)
-                | Some mt =>
-                  collect_rules (tree_kids mt) (ps_enums p) >>=c fun en =>
-                  paste_list f m (tree_kids mt) (mk_pstate (ps_frames p) (ps_roots p) en)
+                | Some mt => paste_list f m (tree_kids mt) p
                 end) with
     | COk a => COk a
     | CErr e => CErr (wrap_paste d e)
@@ -635,10 +633,10 @@ Definition paste_head (f : nat) (m : macro_table) (t : dtree) (p : pstate) : cre
     end
   else
     process_context (ctx_fuel (ps_frames p)) d (ps_frames p) (ps_roots p) >>=c fun fr =>
-    paste_list f m (tree_kids t) (mk_pstate (fst fr) (snd fr) (ps_enums p)) >>=c fun p1 =>
+    paste_list f m (tree_kids t) (mk_pstate (fst fr) (snd fr)) >>=c fun p1 =>
     if d_explicit d then
       let (fr2, rt2) := close_to (S (List.length (ps_frames p1))) (List.length (fst fr) - 1) (ps_frames p1) (ps_roots p1) in
-      COk (mk_pstate fr2 rt2 (ps_enums p1))
+      COk (mk_pstate fr2 rt2)
     else COk p1.
 
 Lemma paste_list_S f m ts p :
@@ -675,14 +673,6 @@ Proof.
       apply close_frame_len in E. apply IH. simpl in *. lia.
 Qed.
 
-Lemma collect_rules_ok_err : forall ts en, ok_err (collect_rules ts en).
-Proof.
-  induction ts as [|t r IH]; intros en; simpl; [exact I|].
-  destruct (kind_eqb _ KEnum); [|apply IH].
-  destruct (beq _ []); [exact I|]. destruct (d_body (tree_dir t)); [|apply IH].
-  destruct (name_in _ en); [exact I|apply IH].
-Qed.
-
 Lemma topo_split m l1 b l2 : topo m (l1 ++ b :: l2) ->
   topo m l2 /\ (forall c, In c (succs m b) -> defined m c = true -> In c l2).
 Proof.
@@ -691,7 +681,6 @@ Qed.
 
 Local Arguments close_to : simpl never.
 Local Arguments process_context : simpl never.
-Local Arguments collect_rules : simpl never.
 Ltac destr_close_to :=
   match goal with |- context [close_to ?a ?b ?c ?d] => destruct (close_to a b c d) end.
 
@@ -720,7 +709,7 @@ Section Paste.
             apply (Hp (dname t)); [left; reflexivity|unfold defined; rewrite El; reflexivity].
           + pose proof (process_context_ok_err (ctx_fuel (ps_frames p)) (tree_dir t) (ps_frames p) (ps_roots p)) as Hc.
             destruct (process_context _ _ _ _) as [fr| | |]; simpl; try exact I; try (apply Hc; unfold ctx_fuel; lia).
-            assert (Hq : ok_err (paste_list f m (tree_kids t) (mk_pstate (fst fr) (snd fr) (ps_enums p)))).
+            assert (Hq : ok_err (paste_list f m (tree_kids t) (mk_pstate (fst fr) (snd fr)))).
             { apply IHf; [|simpl in *; lia]. intros b Hb. apply Hp. apply in_or_app. left. exact Hb. }
             destruct (paste_list f m (tree_kids t) _) as [p1| | |]; simpl; try exact I; try contradiction.
             destruct (d_explicit (tree_dir t)); [|exact I]. destr_close_to. exact I.
@@ -741,17 +730,15 @@ Section Paste.
             { apply Hp; [left; reflexivity|unfold defined; rewrite El; reflexivity]. }
             destruct (in_split _ _ Hin) as [l1 [l2 E]]. subst l.
             destruct (topo_split _ _ _ _ Ht) as [Ht2 Hs].
-            pose proof (collect_rules_ok_err (tree_kids mt) (ps_enums p)) as Hc.
-            destruct (collect_rules (tree_kids mt) (ps_enums p)) as [en| | |]; simpl; try exact I; try contradiction.
-            assert (Hq : ok_err (paste_list f m (tree_kids mt) (mk_pstate (ps_frames p) (ps_roots p) en))).
+            assert (Hq : ok_err (paste_list f m (tree_kids mt) p)).
             { apply (IHk l2); [rewrite app_length in Hl; simpl in Hl; lia|exact Ht2| |].
               - intros b Hb. apply Hs. unfold succs, body. rewrite El. exact Hb.
               - pose proof (lookup_size _ _ _ El) as Hsz. pose proof (tree_size_kids mt) as Hk2.
                 rewrite app_length in Hf. simpl in Hf. fold T in Hsz. nia. }
-            destruct (paste_list f m (tree_kids mt) _) as [p1| | |]; simpl; try exact I; try contradiction.
+            destruct (paste_list f m (tree_kids mt) p) as [p1| | |]; simpl; try exact I; try contradiction.
           + pose proof (process_context_ok_err (ctx_fuel (ps_frames p)) (tree_dir t) (ps_frames p) (ps_roots p)) as Hc.
             destruct (process_context _ _ _ _) as [fr| | |]; simpl; try exact I; try (apply Hc; unfold ctx_fuel; lia).
-            assert (Hq : ok_err (paste_list f m (tree_kids t) (mk_pstate (fst fr) (snd fr) (ps_enums p)))).
+            assert (Hq : ok_err (paste_list f m (tree_kids t) (mk_pstate (fst fr) (snd fr)))).
             { apply IHf; [|simpl in *; lia]. intros b Hb. apply Hp. apply in_or_app. left. exact Hb. }
             destruct (paste_list f m (tree_kids t) _) as [p1| | |]; simpl; try exact I; try contradiction.
             destruct (d_explicit (tree_dir t)); [|exact I]. destr_close_to. exact I.
@@ -775,7 +762,6 @@ Proof.
   intros IH H. unfold paste_head in *. destruct (is_paste t).
   - destruct (negb _); [reflexivity|]. destruct (beq (dname t) []); [reflexivity|].
     destruct (macro_lookup m (dname t)) as [mt|]; [|reflexivity].
-    destruct (collect_rules (tree_kids mt) (ps_enums p)) as [en| | |]; simpl in *; try reflexivity.
     rewrite IH; [reflexivity|]. intros E. rewrite E in H. apply H. reflexivity.
   - destruct (process_context _ _ _ _) as [fr| | |]; simpl in *; try reflexivity.
     rewrite IH; [reflexivity|]. intros E. rewrite E in H. apply H. reflexivity.
@@ -810,6 +796,15 @@ Proof.
   apply paste_mono; [exact Hr|apply Nat.le_max_r].
 Qed.
 
+Lemma evals_at_ok m ts p p' F : evals m ts p (COk p') -> ok_err (paste_list F m ts p) ->
+  paste_list F m ts p = COk p'.
+Proof.
+  intros He Ho. apply (evals_at m ts p _ He). destruct (paste_list F m ts p); try discriminate. contradiction.
+Qed.
+
+Lemma evals_of F m ts p p' : paste_list F m ts p = COk p' -> evals m ts p (COk p').
+Proof. intros H. exists F. split; [exact H|discriminate]. Qed.
+
 Lemma evals_nil m p : evals m [] p (COk p).
 Proof. exists 1%nat. split; [reflexivity|discriminate]. Qed.
 
@@ -841,10 +836,11 @@ Lemma inline_fuel_S f m ts :
   | [] => Some []
   | t :: r =>
     match (if is_paste t then
-             match macro_lookup m (dname t) with
-             | Some mt => inline_fuel f m (tree_kids mt)
-             | None => Some [t]
-             end
+             if negb (beq (d_annot (tree_dir t)) []) then Some [t]
+             else match macro_lookup m (dname t) with
+                  | Some mt => inline_fuel f m (tree_kids mt)
+                  | None => Some [t]
+                  end
            else match inline_fuel f m (tree_kids t) with
                 | Some k => Some [DNode (tree_dir t) k]
                 | None => None
@@ -855,49 +851,28 @@ Lemma inline_fuel_S f m ts :
   end.
 Proof. destruct ts; reflexivity. Qed.
 
-Lemma same_ctx_refl p : same_ctx p p.
-Proof. split; reflexivity. Qed.
-
 Lemma paste_inline m : forall f ts p p', paste_list f m ts p = COk p' ->
-  forall q, same_ctx p q ->
-  exists its q', inline_fuel f m ts = Some its /\ evals [] its q (COk q') /\
-                 same_ctx p' q' /\ ps_enums q' = ps_enums q.
+  exists its, inline_fuel f m ts = Some its /\ evals [] its p (COk p').
 Proof.
-  induction f as [|f IH]; intros ts p p' H q Hq; [discriminate|].
+  induction f as [|f IH]; intros ts p p' H; [discriminate|].
   rewrite paste_list_S in H. rewrite inline_fuel_S. destruct ts as [|t r].
-  { injection H as <-. exists [], q. split; [reflexivity|]. split; [apply evals_nil|]. split; [exact Hq|reflexivity]. }
+  { injection H as <-. exists []. split; [reflexivity|apply evals_nil]. }
   destruct (paste_head f m t p) as [p2| | |] eqn:Eh; simpl in H; try discriminate.
   unfold paste_head in Eh. destruct (is_paste t) eqn:Ep.
   - destruct (negb _); [discriminate|]. destruct (beq (dname t) []); [discriminate|].
     destruct (macro_lookup m (dname t)) as [mt|]; [|discriminate].
-    destruct (collect_rules (tree_kids mt) (ps_enums p)) as [en| | |]; simpl in Eh; try discriminate.
-    destruct (paste_list f m (tree_kids mt) _) as [p2'| | |] eqn:Ek; try discriminate. injection Eh as ->.
-    destruct (IH _ _ _ Ek q) as [its1 [q1 [I1 [E1 [S1 N1]]]]]; [exact Hq|].
-    destruct (IH _ _ _ H q1 S1) as [its2 [q' [I2 [E2 [S2 N2]]]]].
-    exists (its1 ++ its2), q'. rewrite I1, I2. split; [reflexivity|]. split; [eapply evals_app; eassumption|].
-    split; [exact S2|congruence].
-  - destruct Hq as [Hq1 Hq2].
-    destruct (process_context _ _ _ _) as [fr| | |] eqn:Ec; simpl in Eh; try discriminate.
+    destruct (paste_list f m (tree_kids mt) p) as [p2'| | |] eqn:Ek; try discriminate. injection Eh as ->.
+    destruct (IH _ _ _ Ek) as [its1 [I1 E1]].
+    destruct (IH _ _ _ H) as [its2 [I2 E2]].
+    exists (its1 ++ its2). rewrite I1, I2. split; [reflexivity|eapply evals_app; eassumption].
+  - destruct (process_context _ _ _ _) as [fr| | |] eqn:Ec; simpl in Eh; try discriminate.
     destruct (paste_list f m (tree_kids t) _) as [p1| | |] eqn:Ek; simpl in Eh; try discriminate.
-    destruct (IH _ _ _ Ek (mk_pstate (fst fr) (snd fr) (ps_enums q))) as [its1 [q1 [I1 [[g [E1 _]] [[S1a S1b] N1]]]]];
-      [split; reflexivity|].
-    set (q2 := if d_explicit (tree_dir t)
-               then let (fr2, rt2) := close_to (S (List.length (ps_frames q1))) (List.length (fst fr) - 1) (ps_frames q1) (ps_roots q1) in
-                    mk_pstate fr2 rt2 (ps_enums q1)
-               else q1).
-    assert (S2 : same_ctx p2 q2 /\ ps_enums q2 = ps_enums q).
-    { unfold q2. destruct (d_explicit (tree_dir t)).
-      - rewrite <- S1a, <- S1b. destruct (close_to _ _ _ _) as [fr2 rt2]. injection Eh as <-.
-        split; [split; reflexivity|exact N1].
-      - injection Eh as <-. split; [split; assumption|exact N1]. }
-    destruct S2 as [S2 N2].
-    destruct (IH _ _ _ H q2 S2) as [its2 [q' [I2 [E2 [S3 N3]]]]].
-    exists ([DNode (tree_dir t) its1] ++ its2), q'. rewrite I1, I2. split; [reflexivity|].
-    split; [|split; [exact S3|congruence]].
-    simpl. eapply (evals_cons [] _ _ _ q2 _ g); [|exact E2].
+    destruct (IH _ _ _ Ek) as [its1 [I1 [g [E1 _]]]].
+    destruct (IH _ _ _ H) as [its2 [I2 E2]].
+    exists ([DNode (tree_dir t) its1] ++ its2). rewrite I1, I2. split; [reflexivity|].
+    simpl. eapply (evals_cons [] _ _ _ p2 _ g); [|exact E2].
     unfold paste_head. unfold is_paste in *. simpl tree_dir. rewrite Ep. simpl tree_kids.
-    rewrite <- Hq1, <- Hq2, Ec. simpl. rewrite E1. simpl. unfold q2.
-    destruct (d_explicit (tree_dir t)); [|reflexivity]. destr_close_to. reflexivity.
+    rewrite Ec. simpl. rewrite E1. simpl. exact Eh.
 Qed.
 
 (* ------------------------------------------------------------------------------------ *)
@@ -1181,17 +1156,17 @@ Proof.
   assert (Ep' : paste_list (fuel_needed m rest) m rest pstate0 = COk p).
   { rewrite <- Ep. symmetry. apply paste_mono; [|apply expand_fuel_enough].
     destruct (paste_list (fuel_needed m rest) m rest pstate0); try contradiction; discriminate. }
-  destruct (paste_inline m _ _ _ _ Ep' pstate0 (same_ctx_refl _)) as [its [q' [I1 [E1 [[S1 S2] _]]]]].
+  destruct (paste_inline m _ _ _ _ Ep') as [its [I1 E1]].
   assert (Hd : inlined_document ts = its).
   { unfold inlined_document, inline. rewrite <- A, <- B, I1. reflexivity. }
   rewrite Hd in *. rewrite (expand_no_macros its Hnm). unfold expand_rest.
-  assert (Hq : paste_list (expand_fuel its []) [] its pstate0 = COk q').
+  assert (Hq : paste_list (expand_fuel its []) [] its pstate0 = COk p).
   { apply (evals_at [] its pstate0 _ E1).
     pose proof (paste_terminates_nil its pstate0 (expand_fuel its [])) as Ht.
     destruct (paste_list (expand_fuel its []) [] its pstate0); try discriminate.
     intros _. apply Ht. unfold expand_fuel. lia. }
-  rewrite (expand_with_intro (check_fuel []) (expand_fuel its []) its [] q' eq_refl Hq).
-  unfold forest_of_pstate. rewrite S1, S2. reflexivity.
+  rewrite (expand_with_intro (check_fuel []) (expand_fuel its []) its [] p eq_refl Hq).
+  reflexivity.
 Qed.
 
 (* ------------------------------------------------------------------------------------ *)
@@ -1232,14 +1207,13 @@ Proof.
 Qed.
 
 (* an error inside a pasted body is re-located at (and wrapped by) the PASTE that brought it *)
-Theorem paste_error_wrapped_lemma m t r p mt en e :
+Theorem paste_error_wrapped_lemma m t r p mt e :
   is_paste t = true -> d_annot (tree_dir t) = [] -> dname t <> [] -> macro_lookup m (dname t) = Some mt ->
-  collect_rules (tree_kids mt) (ps_enums p) = COk en ->
-  evals m (tree_kids mt) (mk_pstate (ps_frames p) (ps_roots p) en) (CErr e) ->
+  evals m (tree_kids mt) p (CErr e) ->
   evals m (t :: r) p (CErr (wrap_paste (tree_dir t) e)).
 Proof.
-  intros Hp Ha Hn Hl Hc [f [Hf _]]. apply (evals_cons_err m t r p _ f).
-  unfold paste_head. rewrite Hp, Ha, Hl, Hc. apply beq_neq in Hn. rewrite Hn. simpl. rewrite Hf. reflexivity.
+  intros Hp Ha Hn Hl [f [Hf _]]. apply (evals_cons_err m t r p _ f).
+  unfold paste_head. rewrite Hp, Ha, Hl. apply beq_neq in Hn. rewrite Hn. simpl. rewrite Hf. reflexivity.
 Qed.
 
 Definition Expanded (m : macro_table) (b : bytes) : Prop :=
@@ -1255,8 +1229,7 @@ Proof.
   unfold paste_head in Eh. destruct (is_paste t).
   - destruct Hb as [<-|[]]. destruct (negb _); [discriminate|]. destruct (beq (dname t) []); [discriminate|].
     destruct (macro_lookup m (dname t)) as [mt|] eqn:El; [|discriminate].
-    destruct (collect_rules _ _) as [en| | |]; simpl in Eh; try discriminate.
-    destruct (paste_list f m (tree_kids mt) _) as [q| | |] eqn:Ek; try discriminate.
+    destruct (paste_list f m (tree_kids mt) p) as [q| | |] eqn:Ek; try discriminate.
     split; [unfold defined; rewrite El; reflexivity|]. unfold body. rewrite El. eauto.
   - destruct (process_context _ _ _ _) as [fr| | |]; simpl in Eh; try discriminate.
     destruct (paste_list f m (tree_kids t) _) as [p1| | |] eqn:Ek; simpl in Eh; try discriminate.
@@ -1297,15 +1270,19 @@ Proof.
   intros Hb. induction f as [|f IH]; intros ts its Hn H; [discriminate|].
   rewrite inline_fuel_S in H. destruct ts as [|t r]; [injection H as <-; reflexivity|].
   unfold no_macro_nodes in Hn. simpl in Hn. apply andb_true_iff in Hn as [Hn1 Hn2].
+  assert (Hstay : match inline_fuel f m r with Some b => Some ([t] ++ b) | None => None end = Some its ->
+                  no_macro_nodes its = true).
+  { intros H'. destruct (inline_fuel f m r) as [b|] eqn:Eb; [|discriminate]. injection H' as <-.
+    unfold no_macro_nodes. simpl. rewrite Hn1. simpl. eapply IH; eassumption. }
   destruct (is_paste t) eqn:Ep.
-  - destruct (macro_lookup m (dname t)) as [mt|] eqn:El.
+  - destruct (negb (beq (d_annot (tree_dir t)) [])); [apply Hstay; exact H|].
+    destruct (macro_lookup m (dname t)) as [mt|] eqn:El.
     + destruct (inline_fuel f m (tree_kids mt)) as [a|] eqn:Ea; [|discriminate].
       destruct (inline_fuel f m r) as [b|] eqn:Eb; [|discriminate]. injection H as <-.
       rewrite no_macro_nodes_app. apply andb_true_iff. split; [|eapply IH; eassumption].
       eapply IH; [|exact Ea]. unfold bodies_macro_free in Hb. rewrite forallb_forall in Hb.
       apply (Hb _ (lookup_some_in _ _ _ El)).
-    + destruct (inline_fuel f m r) as [b|] eqn:Eb; [|discriminate]. injection H as <-.
-      unfold no_macro_nodes. simpl. rewrite Hn1. simpl. eapply IH; eassumption.
+    + apply Hstay; exact H.
   - destruct (inline_fuel f m (tree_kids t)) as [k|]; [|discriminate].
     destruct (inline_fuel f m r) as [b|] eqn:Eb; [|discriminate]. injection H as <-.
     unfold no_macro_nodes. simpl. unfold is_macro in *. simpl. rewrite Hn1. simpl. eapply IH; eassumption.
@@ -1324,6 +1301,190 @@ Proof.
   unfold inlined_document, inline.
   destruct (inline_fuel _ _ _) as [its|] eqn:E; [|reflexivity].
   eapply inline_no_macro; [exact Hb|apply strip_no_macro|exact E].
+Qed.
+
+(* ------------------------------------------------------------------------------------ *)
+(* the other direction: what the inlined document expands to, the document with macros expands to *)
+
+Lemma evals_cons_inv m t r p p' : evals m (t :: r) p (COk p') ->
+  exists f p2, paste_head f m t p = COk p2 /\ evals m r p2 (COk p').
+Proof.
+  intros [f [H _]]. destruct f; [discriminate|]. rewrite paste_list_S in H.
+  destruct (paste_head f m t p) as [p2| | |] eqn:Eh; simpl in H; try discriminate.
+  exists f, p2. split; [exact Eh|]. exists f. split; [exact H|discriminate].
+Qed.
+
+Lemma evals_app_inv m : forall a b p p', evals m (a ++ b) p (COk p') ->
+  exists p1, evals m a p (COk p1) /\ evals m b p1 (COk p').
+Proof.
+  induction a as [|t a IH]; intros b p p' H.
+  - exists p. split; [apply evals_nil|exact H].
+  - simpl in H. destruct (evals_cons_inv _ _ _ _ _ H) as [f [p2 [Hh Hr]]].
+    destruct (IH _ _ _ Hr) as [p1 [Ha Hb]]. exists p1. split; [|exact Hb].
+    eapply evals_cons; eassumption.
+Qed.
+
+Lemma paste_head_nil_paste f t p : is_paste t = true -> forall p2, paste_head f [] t p <> COk p2.
+Proof.
+  intros Hp p2. unfold paste_head. rewrite Hp. destruct (negb _); [discriminate|].
+  destruct (beq (dname t) []); discriminate.
+Qed.
+
+Lemma inline_paste m : macro_lookup m [] = None ->
+  forall f ts its, inline_fuel f m ts = Some its ->
+  forall p p', evals [] its p (COk p') -> evals m ts p (COk p').
+Proof.
+  intros Hnil. induction f as [|f IH]; intros ts its H p p' He; [discriminate|].
+  rewrite inline_fuel_S in H. destruct ts as [|t r].
+  { injection H as <-. destruct He as [g [Hg _]]. destruct g; [discriminate|].
+    rewrite paste_list_S in Hg. injection Hg as <-. apply evals_nil. }
+  assert (Hstay : is_paste t = true ->
+                  match inline_fuel f m r with Some b => Some ([t] ++ b) | None => None end = Some its -> False).
+  { intros Hp H'. destruct (inline_fuel f m r) as [b|]; [|discriminate]. injection H' as <-.
+    simpl in He. destruct (evals_cons_inv _ _ _ _ _ He) as [g [p2 [Hh _]]].
+    exact (paste_head_nil_paste g t p Hp p2 Hh). }
+  destruct (is_paste t) eqn:Ep.
+  - destruct (negb (beq (d_annot (tree_dir t)) [])) eqn:Ea; [exfalso; apply Hstay; [reflexivity|exact H]|].
+    destruct (macro_lookup m (dname t)) as [mt|] eqn:El; [|exfalso; apply Hstay; [reflexivity|exact H]].
+    destruct (inline_fuel f m (tree_kids mt)) as [a|] eqn:Ia; [|discriminate].
+    destruct (inline_fuel f m r) as [b|] eqn:Ib; [|discriminate]. injection H as <-.
+    destruct (evals_app_inv _ _ _ _ _ He) as [p1 [Ha Hb]].
+    pose proof (IH _ _ Ia _ _ Ha) as [g [Hg _]]. pose proof (IH _ _ Ib _ _ Hb) as Hr.
+    eapply (evals_cons m t r p p1 _ g); [|exact Hr].
+    unfold paste_head. rewrite Ep, Ea, El, Hg.
+    destruct (beq (dname t) []) eqn:En; [|reflexivity].
+    apply beq_eq in En. rewrite En, Hnil in El. discriminate.
+  - destruct (inline_fuel f m (tree_kids t)) as [k|] eqn:Ik; [|discriminate].
+    destruct (inline_fuel f m r) as [b|] eqn:Ib; [|discriminate]. injection H as <-.
+    simpl in He. destruct (evals_cons_inv _ _ _ _ _ He) as [g [p2 [Hh Hb]]].
+    unfold paste_head in Hh. unfold is_paste in Hh, Ep. simpl tree_dir in Hh. rewrite Ep in Hh. simpl tree_kids in Hh.
+    destruct (process_context _ _ _ _) as [fr| | |] eqn:Ec; simpl in Hh; try discriminate.
+    destruct (paste_list g [] k _) as [q1| | |] eqn:Ek; simpl in Hh; try discriminate.
+    assert (Hk : evals m (tree_kids t) (mk_pstate (fst fr) (snd fr)) (COk q1)).
+    { eapply IH; [exact Ik|]. exists g. split; [exact Ek|discriminate]. }
+    destruct Hk as [g' [Hg' _]]. pose proof (IH _ _ Ib _ _ Hb) as Hr.
+    eapply (evals_cons m t r p p2 _ g'); [|exact Hr].
+    unfold paste_head. unfold is_paste. rewrite Ep, Ec. simpl. rewrite Hg'. simpl. exact Hh.
+Qed.
+
+(* inline_fuel is defined, with the fuel of the specification, whenever the paste graph is acyclic *)
+Lemma inline_total_aux m : forall n l, List.length l = n -> topo m l ->
+  forall fuel ts,
+    (forall b, In b (pastes_in ts) -> defined m b = true -> In b l) ->
+    (forest_size ts + 1 + List.length l * (macro_total m + 2) <= fuel)%nat ->
+    inline_fuel fuel m ts <> None.
+Proof.
+  induction n as [n IHn] using lt_wf_ind. intros l Hl Ht.
+  induction fuel as [|f IHf]; intros ts Hp Hf; [lia|].
+  rewrite inline_fuel_S. destruct ts as [|t r]; [discriminate|].
+  rewrite forest_size_cons in Hf. pose proof (tree_size_kids t) as Hk.
+  assert (Hr : inline_fuel f m r <> None).
+  { apply IHf; [|lia]. intros b Hb. apply Hp. rewrite pastes_in_cons. apply in_or_app. right. exact Hb. }
+  rewrite pastes_in_cons, pastes_tree_eq in Hp.
+  destruct (inline_fuel f m r) as [b|]; [|contradiction].
+  destruct (is_paste t).
+  - destruct (negb _); [discriminate|].
+    destruct (macro_lookup m (dname t)) as [mt|] eqn:El; [|discriminate].
+    assert (Hin : In (dname t) l).
+    { apply Hp; [left; reflexivity|unfold defined; rewrite El; reflexivity]. }
+    destruct (in_split _ _ Hin) as [l1 [l2 E]]. subst l.
+    destruct (topo_split _ _ _ _ Ht) as [Ht2 Hs].
+    assert (Hq : inline_fuel f m (tree_kids mt) <> None).
+    { apply (IHn (List.length l2)) with (l := l2); [rewrite <- Hl, app_length; simpl; lia|reflexivity|exact Ht2| |].
+      - intros c Hc. apply Hs. unfold succs, body. rewrite El. exact Hc.
+      - pose proof (lookup_size _ _ _ El) as Hsz. pose proof (tree_size_kids mt) as Hk2.
+        rewrite app_length in Hf. simpl in Hf. nia. }
+    destruct (inline_fuel f m (tree_kids mt)); [discriminate|contradiction].
+  - assert (Hq : inline_fuel f m (tree_kids t) <> None).
+    { apply IHf; [|lia]. intros c Hc. apply Hp. apply in_or_app. left. exact Hc. }
+    destruct (inline_fuel f m (tree_kids t)); [discriminate|contradiction].
+Qed.
+
+Lemma inline_total m fuel0 ts : table_ok m = true ->
+  check_all_macros fuel0 m (map fst m) [] = COk tt ->
+  exists its, inline_fuel (fuel_needed m ts) m ts = Some its.
+Proof.
+  intros Htab Hc. destruct (check_passed_order m Htab fuel0 Hc) as [l [T [N [A _]]]].
+  assert (Hlen : (List.length l <= List.length m)%nat).
+  { rewrite <- (map_length fst m). apply NoDup_incl_length; [exact N|].
+    intros x Hx. apply defined_in_names. apply A. exact Hx. }
+  pose proof (inline_total_aux m _ l eq_refl T (fuel_needed m ts) ts) as H.
+  destruct (inline_fuel (fuel_needed m ts) m ts) as [its|]; [exists its; reflexivity|].
+  exfalso. apply H; [| |reflexivity].
+  - intros b _ Hd. apply A. exact Hd.
+  - unfold fuel_needed. nia.
+Qed.
+
+Lemma macros_of_no_empty_name ts :
+  (forall t, In t ts -> is_macro t = true -> macro_wf t = true) -> macro_lookup (macros_of ts) [] = None.
+Proof.
+  intros Hwf. destruct (macro_lookup (macros_of ts) []) as [t|] eqn:E; [|reflexivity]. exfalso.
+  apply lookup_some_in in E. unfold macros_of in E. apply in_map_iff in E as [t' [Ht' Hin]].
+  injection Ht' as Hn _. apply filter_In in Hin as [Hin Hm]. specialize (Hwf t' Hin Hm).
+  unfold macro_wf in Hwf. rewrite Hn in Hwf. simpl in Hwf. rewrite andb_false_r in Hwf. discriminate.
+Qed.
+
+(* the definitions are in order and acyclic (what is checked before anything is pasted): then the
+   inlined document is accepted ONLY IF the document with macros is, with the same result *)
+Lemma expand_rest_ok rest m f : expand_rest rest m = COk f ->
+  exists p, paste_list (expand_fuel rest m) m rest pstate0 = COk p /\ f = forest_of_pstate p.
+Proof. unfold expand_rest. intros H. apply expand_with_ok in H as [_ H]. exact H. Qed.
+
+Lemma expand_no_macros_ok its f : no_macro_nodes its = true -> expand its = COk f ->
+  exists p F, paste_list F [] its pstate0 = COk p /\ f = forest_of_pstate p.
+Proof.
+  intros Hnm H. rewrite (expand_no_macros its Hnm) in H.
+  destruct (expand_rest_ok its [] f H) as [p [Hp Hf]]. exists p, (expand_fuel its []).
+  split; [exact Hp|exact Hf].
+Qed.
+
+Lemma expand_intro ts rest m p :
+  collect_macro ts [] = COk (rest, m) ->
+  check_all_macros (check_fuel m) m (map fst m) [] = COk tt ->
+  paste_list (expand_fuel rest m) m rest pstate0 = COk p ->
+  expand ts = COk (forest_of_pstate p).
+Proof.
+  intros Ec Ek Hq. rewrite expand_eq, Ec. cbn [cbind fst snd]. unfold expand_rest.
+  exact (expand_with_intro _ _ _ _ _ Ek Hq).
+Qed.
+
+Theorem inlining_is_paste_lemma ts rest m f :
+  collect_macro ts [] = COk (rest, m) ->
+  check_all_macros (check_fuel m) m (map fst m) [] = COk tt ->
+  no_macro_nodes (inlined_document ts) = true ->
+  expand (inlined_document ts) = COk f -> expand ts = COk f.
+Proof.
+  intros Ec Ek Hnm H.
+  destruct (collect_macro_spec _ _ _ _ Ec) as [A [B [Cwf _]]]. simpl in B.
+  assert (Htab : table_ok m = true) by (rewrite B; apply table_ok_macros_of).
+  destruct (inline_total m _ rest Htab Ek) as [its I1].
+  assert (Hd : inlined_document ts = its).
+  { unfold inlined_document, inline. rewrite <- A, <- B, I1. reflexivity. }
+  rewrite Hd in Hnm, H.
+  destruct (expand_no_macros_ok its f Hnm H) as [p [F [Hp ->]]].
+  assert (He : evals m rest pstate0 (COk p)).
+  { eapply inline_paste; [rewrite B; apply macros_of_no_empty_name; exact Cwf|exact I1|].
+    exact (evals_of _ _ _ _ _ Hp). }
+  pose proof (evals_at_ok m rest pstate0 p _ He
+               (paste_terminates_lemma m _ Htab Ek rest pstate0 _ (expand_fuel_enough m rest))) as Hq.
+  exact (expand_intro ts rest m p Ec Ek Hq).
+Qed.
+
+Theorem paste_iff_inlining_lemma ts rest m f :
+  collect_macro ts [] = COk (rest, m) ->
+  check_all_macros (check_fuel m) m (map fst m) [] = COk tt ->
+  bodies_macro_free m = true ->
+  (expand ts = COk f <-> expand (inlined_document ts) = COk f).
+Proof.
+  intros Ec Ek Hb.
+  destruct (collect_macro_spec _ _ _ _ Ec) as [A [B _]]. simpl in B.
+  assert (Htab : table_ok m = true) by (rewrite B; apply table_ok_macros_of).
+  assert (Hnm : no_macro_nodes (inlined_document ts) = true).
+  { unfold inlined_document, inline. destruct (inline_fuel _ _ _) as [its|] eqn:E; [|reflexivity].
+    rewrite B in Hb. exact (inline_no_macro _ Hb _ _ _ (strip_no_macro ts) E). }
+  split.
+  - intros H. apply paste_is_inlining_lemma; assumption.
+  - intros H. eapply inlining_is_paste_lemma; eassumption.
 Qed.
 
 (* ------------------------------------------------------------------------------------ *)
@@ -1426,7 +1587,6 @@ Section Remove.
         rewrite (lookup_removed_other _ Hn).
         destruct (negb _); [reflexivity|]. destruct (beq (dname t0) []); [reflexivity|].
         destruct (macro_lookup m (dname t0)) as [mt|] eqn:El; [|reflexivity].
-        destruct (collect_rules _ _) as [en| | |]; simpl; try reflexivity.
         rewrite IH; [reflexivity|]. intros b Hb. apply (S_closed (dname t0)); [apply Ht; left; reflexivity|].
         unfold succs, body. rewrite El. exact Hb.
       - destruct (process_context _ _ _ _) as [fr| | |]; simpl; try reflexivity.
@@ -1610,13 +1770,12 @@ Proof.
   exists f1. split; [exact H|discriminate].
 Qed.
 
-Theorem paste_error_wrapped_fuel m t r p mt en e f1 :
+Theorem paste_error_wrapped_fuel m t r p mt e f1 :
   is_paste t = true -> d_annot (tree_dir t) = [] -> dname t <> [] -> macro_lookup m (dname t) = Some mt ->
-  collect_rules (tree_kids mt) (ps_enums p) = COk en ->
-  paste_list f1 m (tree_kids mt) {| ps_frames := ps_frames p; ps_roots := ps_roots p; ps_enums := en |} = CErr e ->
+  paste_list f1 m (tree_kids mt) p = CErr e ->
   exists f0, forall f, (f0 <= f)%nat -> paste_list f m (t :: r) p = CErr (wrap_paste (tree_dir t) e).
 Proof.
-  intros Hp Ha Hn Hl Hc H. apply evals_fuel. eapply paste_error_wrapped_lemma; try eassumption.
+  intros Hp Ha Hn Hl H. apply evals_fuel. eapply paste_error_wrapped_lemma; try eassumption.
   exists f1. split; [exact H|discriminate].
 Qed.
 
@@ -1687,6 +1846,13 @@ Module Examples.
   Definition dup := [xmacro "a" 1 [xnode KGet 2 []]; xnode KURL 4 []; xmacro "a" 5 [xnode KGet 6 []]].
   Example duplicate_located_at_second : expand dup = CErr (kw_err (xdir KMacro (bs "a") false 5) CEDupName).
   Proof. vm_compute. reflexivity. Qed.
+
+  (* one body pasted twice (here an ENUM): no rule is collected while pasting, document and inlined
+     document expand alike; the duplicate is the business of the later stages, on both *)
+  Definition twice := [xmacro "e" 1 [xnode KEnum 2 []]; xpaste "e" 3; xnode KURL 4 []; xpaste "e" 5].
+  Example pasted_twice : exists f, expand twice = COk f /\ expand (inlined_document twice) = COk f /\
+    map (fun t => d_kind (tree_dir t)) f = [KEnum; KURL; KEnum].
+  Proof. eexists. vm_compute. repeat split; reflexivity. Qed.
 
   (* why paste_is_inlining carries its guard: a forest that no scan produces (a MACRO node inside
      a macro body) is pasted as a directive, but collected as a definition once inlined *)
